@@ -109,7 +109,11 @@ func init() {
 	extra := []string{"-5", "-.5", "-ff", "--", "-x", "a=b", "k:v", "-5.5e1", "-v", "--name", "-é", "-0.5", "-007", "-0", "-9", "-1e3", "-00", "-9.99", "on", "off", "-5s", "-1h2m", "-1f", "5s", "-1.5s", "-42", "-4", "-4.5", "-44", "caf\xe9", "\xff", "`code`", "`a b` c"}
 
 	body := func(c *explore.Ctx) {
-		part := c.Choose(3)
+		part := c.Choose(4)
+		if part == 3 {
+			c02InCommand(c)
+			return
+		}
 		if part == 1 {
 			c02Clusters(c)
 			return
@@ -240,9 +244,9 @@ func init() {
 		Rule: "option types {string, int, float64, []string, map[string]string, func(string), int base 16, []int, []*int, a bool-kinded Unmarshaler, time.Duration} (a flag with the digit short name -4 is declared next to it) x short name {x, é (2 bytes), € (3 bytes)} x optional-argument {no, yes} x PassDoubleDash {off, on} x context {alone, between two other options, before a plain word} x {fresh parser, parser that parsed [sync -x -xx] before, where sync declares the same short letter as a flag} " +
 			"x value V in every string of length <= 3 (quick) / <= 4 (thorough) over {v = - . 5 0 \" \\ é : space f I} plus 33 hand-picked values (negative numbers in three notations, --, option-looking words, bytes that are not valid UTF-8, back-quoted text); in the simplest cell also with the option declared in a plain group inside a namespaced group (long name --db.name); for each cell all admissible spellings among " +
 			"{-xV, -x=V, -x V, --name=V, --name V} x {V, V as a double-quoted Go literal} are parsed and must give one identical outcome (all values, callback log, remaining arguments, error type); " +
-			"plus a string option and an int option handed over with (*Group).AddOption (5 values each, negative numerals for the int, x all spellings, plain and quoted); plus every flag cluster of <= 4 over {a (bool), b ([]bool), é (func())} and every cluster ending in an argument-taking option (x or é) against its separated form; distinct = distinct (type, short, outcome)",
+			"plus argument-taking options (string, int, []string; short name o or é) that only a command or a nested command declares, the parser itself having flags only, compared after the command word incl. the form at the end of a cluster (-jo V); plus a string option and an int option handed over with (*Group).AddOption (5 values each, negative numerals for the int, x all spellings, plain and quoted); plus every flag cluster of <= 4 over {a (bool), b ([]bool), é (func())} and every cluster ending in an argument-taking option (x or é) against its separated form; distinct = distinct (type, short, outcome)",
 		Assumptions:  []string{"separate-token form demanded only where the statement allows it: not for optional-argument options, not when V has option syntax unless V is a clear numeral of the signed numeric option's own type and base, not for -- under PassDoubleDash", "-xV not demanded when V is empty or starts with '='"},
-		RequiredHits: []string{"agreeing-success", "agreeing-error", "spellings=10", "cluster-compared", "cluster-with-argument", "added-option-spellings", "added-int-negative-accepted"},
+		RequiredHits: []string{"agreeing-success", "agreeing-error", "spellings=10", "cluster-compared", "cluster-with-argument", "added-option-spellings", "added-int-negative-accepted", "in-command-compared"},
 		Bound:        [2]string{"values <= 3 characters", "values <= 4 characters"},
 		BudgetS:      [2]int{170, 1500},
 	})
@@ -406,4 +410,71 @@ func c02Added(c *explore.Ctx) {
 	if numeric && strings.HasPrefix(first, "ok") && strings.HasPrefix(V, "-") {
 		c.Hit("added-int-negative-accepted")
 	}
+}
+
+var c02CmdDecls = map[string]*c02Decl{}
+
+// c02InCommand: the only argument-taking options are declared by a command (the parser itself has flags only); the
+// spellings are compared after the command word, where those options are in scope.
+func c02InCommand(c *explore.Ctx) {
+	short := []string{"o", "é"}[c.Choose(2)]
+	kind := c.Choose(3)
+	t := []*decl.Type{decl.TString, decl.TInt, decl.TStrings}[kind]
+	vals := [][]string{{"v", "a b", "x=y", "-", "o", short + "x"}, {"5", "-5", "007", "x"}, {"v", "", "k:v"}}[kind]
+	V := vals[c.Choose(len(vals))]
+	nested := c.Bool() // the command is a subcommand of another command
+	key := fmt.Sprint(short, kind, nested)
+	cd := c02CmdDecls[key]
+	if cd == nil {
+		x := &decl.Opt{Field: "X", Short: short, Long: "output", Type: t}
+		build := &decl.Cmd{Field: "Build", Name: "build", Opts: []*decl.Opt{x, {Field: "J", Short: "j", Long: "jflag", Type: decl.TBool}}}
+		top := &decl.Cmd{Name: "app", Opts: []*decl.Opt{{Field: "Verbose", Short: "v", Long: "verbose", Type: decl.TBools}, {Field: "Quiet", Short: "q", Long: "quiet", Type: decl.TBool}}}
+		if nested {
+			top.Cmds = []*decl.Cmd{{Field: "Outer", Name: "outer", Opts: []*decl.Opt{{Field: "W", Short: "w", Long: "wflag", Type: decl.TBool}}, Cmds: []*decl.Cmd{build}}}
+		} else {
+			top.Cmds = []*decl.Cmd{build}
+		}
+		cd = &c02Decl{d: (&decl.Decl{Top: top}).Finish(), x: nil}
+		c02CmdDecls[key] = cd
+	}
+	pre := []string{"-v", "build"}
+	if nested {
+		pre = []string{"outer", "-w", "build"}
+	}
+	S, L := "-"+short, "--output"
+	forms := []c02Spelling{{"-x=V", []string{S + "=" + V}}, {"--name=V", []string{L + "=" + V}}}
+	if V != "" && !strings.HasPrefix(V, "=") {
+		forms = append(forms, c02Spelling{"-xV", []string{S + V}}) // (-jxV is no spelling: only the first letter of a token may be followed by its argument)
+	}
+	if !ref.IsOptionToken(V) || (t == decl.TInt && ref.ConvScalar(t.RT, 10, V).Class == ref.MustAccept) {
+		forms = append(forms, c02Spelling{"-x V", []string{S, V}}, c02Spelling{"--name V", []string{L, V}}, c02Spelling{"-jx V", []string{"-j" + short, V}})
+	}
+	c.Describe(func() interface{} {
+		return map[string]interface{}{"part": "argument-taking options declared by a command only", "type": t.Name, "short": short, "V": V, "command_is_nested": nested}
+	})
+	first, firstName := "", ""
+	for i, f := range forms {
+		argv := append(append([]string{}, pre...), f.toks...)
+		if strings.HasPrefix(f.name, "-j") {
+			argv = append(argv, "-j") // the clustered forms carry the flag themselves: give it to the others as well
+			argv = argv[:len(argv)-1]
+		} else {
+			argv = append(append(append([]string{}, pre...), "-j"), f.toks...)
+		}
+		obs, pan := c02Observe(cd, argv)
+		if pan != nil {
+			c.Fail("panic|"+f.name, fmt.Sprint(pan))
+			return
+		}
+		if i == 0 {
+			first, firstName = obs, f.name
+			c.Outcome("in-command", t.Name, short, obs)
+			continue
+		}
+		if obs != first {
+			c.Fail(fmt.Sprintf("pair=%s/%s|in-command|%s|%s", firstName, f.name, t.Name, c02ValueClass(V, f.name)), map[string]interface{}{"first": first, "this": obs, "argv": argv})
+			return
+		}
+	}
+	c.Hit("in-command-compared")
 }
